@@ -9,7 +9,7 @@
   Domain where this model is unambiguous (the streams compare only inside it, see DESIGN.md C06):
   no default-ignorable glyphs; ligature lookups carry no ignore flags; lookups nested in contextual
   lookups are single / alternate / multiple-with-at-least-one-glyph substitutions (each acts at one
-  position and may only grow the string; later sequence indices shift by the growth).
+  position and may only grow the string; the glyphs it adds become sequence positions of their own for later records).
   Feature ranges: a lookup acts at a position only if its feature is on for the glyph there, and every glyph of its
   input sequence must have the feature on as well (see `matchSeq`).
 -/
@@ -118,8 +118,11 @@ def applyRecords (f : Font) (lookupMask : Nat) : List Rec → List G → List Na
     | none => applyRecords f lookupMask rest gs ps
     | some p =>
       let (gs', growth) := applyNested f lookupIdx gs p lookupMask
-      -- positions after the current one shift by the growth; the new glyphs follow the current position
-      let ps' := ps.mapIdx fun k q => if k > seqIdx then q + growth else q
+      -- "sequenceIndex" of a later record refers to the sequence AS MODIFIED by the earlier records: the glyphs a
+      -- growing nested lookup produced take their own places right after the current position, the positions
+      -- behind them move up by the growth
+      let ps' := ps.take (seqIdx + 1) ++ (List.range growth).map (fun j => p + 1 + j)
+                   ++ (ps.drop (seqIdx + 1)).map (· + growth)
       applyRecords f lookupMask rest gs' ps'
 
 /-- one subtable at position `i` (the glyph at `i` is visible and enabled) -/
